@@ -208,7 +208,7 @@ impl crux_core::verif::Controller for Ctl {
         }
         *st.point_counts.entry(name).or_insert(0) += 1;
         st.status[me] = Status::AtPoint(name);
-        if name == "exec.unavailable" {
+        if name == "exec.unavailable" || name == "rwlock.contended" {
             // spin-wait on another thread: somebody else has to run before this one continues
             st.yielding[me] = true;
             st.yield_events += 1;
